@@ -122,17 +122,19 @@ def w12(rep, wd, dims):
     return len(index)
 
 
-def run(tier):
-    rep = common.Report("C12", tier, "proof",
-                        "one obligation per (projection, D, observable): byte address of the projected element at a symbolic index and every extent "
-                        "of the projected view, as closed forms of the optimised library code on a symbolic source view, equal the prescribed forms")
-    wd = common.workdir("c12")
-    maxd = 3 if tier == "thorough" else 2
-    cr = viewops.CustomRun(rep, "C12", True, wd, "p")
+def raw_body(et, D, expr):
+    return ("auto* sb = reinterpret_cast<%s*>(base); multi::subarray<%s, %d> v(%s, sb); observe(%s, base, out, i0, i1, i2, i3, i4);" % (et, et, D, mk(D), expr))
+
+
+def add_cast_items(cr, maxd, fam="O12.cast", pre="O12", mkbody=raw_body, only=None):
+    """adds the projection obligations for D = 1..maxd to a CustomRun; mkbody(element type, D, expression) gives the driver body (the pointer type of the
+    source view is the caller's choice: C11 instantiates the same table over a fancy pointer); only: predicate on (item name, D)"""
     idxargs = ["i0", "i1", "i2", "i3", "i4"]
     IDX = [A(i) for i in idxargs]
     for D in range(1, maxd + 1):
         for name, et, expr, want, eb, off, scale in items(D):
+            if only is not None and not only(name, D):
+                continue
             if D == 1 and ("as_const()" in expr or "const_array_cast" in expr):
                 continue   # the 1-D const_subarray specialisation has no as_const()/const_array_cast() members
             args = list(idxargs)
@@ -149,8 +151,7 @@ def run(tier):
                 cases = [{"z0": A("t") * A("m")}]
                 signs.update({"t": POS, "m": POS})
                 want = vs.strided(vs.root(D, True).subst(cases[0]), A("t"))
-            body = ("auto* sb = reinterpret_cast<%s*>(base); multi::subarray<%s, %d> v(%s, sb); observe(%s, base, out, i0, i1, i2, i3, i4);"
-                    % (et, et, D, mk(D), expr))
+            body = mkbody(et, D, expr)
             # expected: same index map as `want` (in units of the source element), bytes = eb per source element + member offset;
             # extents unchanged; strides of the result are measured in result elements: stride*scale
             wv = want
@@ -166,7 +167,7 @@ def run(tier):
                     elif scale is not None:
                         w[(4 + 6 * k + 2, "stride%d" % k)] = d.s * scale
                 return w
-            cr.add("O12.%s,D=%d" % (name, D), "O12.cast", D, args, body, wants, cases=cases, signs=signs, view=True, declare=False)
+            cr.add("%s.%s,D=%d" % (pre, name, D), fam, D, args, body, wants, cases=cases, signs=signs, view=True, declare=False)
         # reinterpret with trailing dimension: complex<double> -> double[2]
         for cexpr, nm in (("v.reinterpret_array_cast<double>(2)", "reinterpret_array_cast<double>(2)"),
                           ("std::as_const(v).reinterpret_array_cast<double>(2)", "const reinterpret_array_cast<double>(2)"),
@@ -201,9 +202,20 @@ def run(tier):
                         w[(4 + 6 * k + 1, "size%d" % k)] = d.z
                         w[(4 + 6 * k + 2, "stride%d" % k)] = d.s
                     return w
-            body = ("auto* sb = reinterpret_cast<cplx*>(base); multi::subarray<cplx, %d> v(%s, sb); observe(%s, base, out, i0, i1, i2, i3, i4);"
-                    % (D, mk(D), cexpr))
-            cr.add("O12.%s,D=%d" % (nm, D), "O12.cast", D, idxargs, body, wants, cases=cases, view=True, declare=False)
+            if only is not None and not only(nm, D):
+                continue
+            body = mkbody("cplx", D, cexpr)
+            cr.add("%s.%s,D=%d" % (pre, nm, D), fam, D, idxargs, body, wants, cases=cases, view=True, declare=False)
+
+
+def run(tier):
+    rep = common.Report("C12", tier, "proof",
+                        "one obligation per (projection, D, observable): byte address of the projected element at a symbolic index and every extent "
+                        "of the projected view, as closed forms of the optimised library code on a symbolic source view, equal the prescribed forms")
+    wd = common.workdir("c12")
+    maxd = 3 if tier == "thorough" else 2
+    cr = viewops.CustomRun(rep, "C12", True, wd, "p")
+    add_cast_items(cr, maxd)
     nw = w12(rep, wd, (1, 2) if tier == "quick" else (1, 2, 3))
     rep.need_instances("W12 witnesses", nw, 12)
     try:
